@@ -15,6 +15,7 @@
 #include <cstdlib>
 #include <limits>
 #include <ostream>
+#include <ratio>
 
 #include "opentelemetry/nostd/string_view.h"
 #include "opentelemetry/sdk/common/global_log_handler.h"
@@ -87,17 +88,41 @@ bool GetBoolEnvironmentVariable(const char *env_var_name, bool &value)
   return true;
 }
 
+// Converts count units of FromDuration, rejecting values that do not fit.
+template <class FromDuration>
+static bool ConvertTimeout(std::chrono::system_clock::duration::rep count,
+                           std::chrono::system_clock::duration &value)
+{
+  using Rep   = std::chrono::system_clock::duration::rep;
+  using Ratio = std::ratio_divide<typename FromDuration::period,
+                                  std::chrono::system_clock::duration::period>;
+  if (count > (std::numeric_limits<Rep>::max)() / static_cast<Rep>(Ratio::num))
+  {
+    return false;
+  }
+  value = std::chrono::duration_cast<std::chrono::system_clock::duration>(
+      FromDuration{static_cast<typename FromDuration::rep>(count)});
+  return true;
+}
+
 static bool GetTimeoutFromString(const char *input, std::chrono::system_clock::duration &value)
 {
-  std::chrono::system_clock::duration::rep result = 0;
+  using Rep  = std::chrono::system_clock::duration::rep;
+  Rep result = 0;
 
   // Skip spaces
-  for (; *input && std::isspace(*input); ++input)
+  for (; *input && std::isspace(static_cast<unsigned char>(*input)); ++input)
     ;
 
-  for (; *input && std::isdigit(*input); ++input)
+  for (; *input && std::isdigit(static_cast<unsigned char>(*input)); ++input)
   {
-    result = result * 10 + (*input - '0');
+    const Rep digit = *input - '0';
+    if (result > ((std::numeric_limits<Rep>::max)() - digit) / 10)
+    {
+      // Out of range.
+      return false;
+    }
+    result = result * 10 + digit;
   }
 
   if (result == 0)
@@ -110,44 +135,32 @@ static bool GetTimeoutFromString(const char *input, std::chrono::system_clock::d
 
   if (unit == "ns")
   {
-    value = std::chrono::duration_cast<std::chrono::system_clock::duration>(
-        std::chrono::nanoseconds{result});
-    return true;
+    return ConvertTimeout<std::chrono::nanoseconds>(result, value);
   }
 
   if (unit == "us")
   {
-    value = std::chrono::duration_cast<std::chrono::system_clock::duration>(
-        std::chrono::microseconds{result});
-    return true;
+    return ConvertTimeout<std::chrono::microseconds>(result, value);
   }
 
   if (unit == "ms")
   {
-    value = std::chrono::duration_cast<std::chrono::system_clock::duration>(
-        std::chrono::milliseconds{result});
-    return true;
+    return ConvertTimeout<std::chrono::milliseconds>(result, value);
   }
 
   if (unit == "s")
   {
-    value = std::chrono::duration_cast<std::chrono::system_clock::duration>(
-        std::chrono::seconds{result});
-    return true;
+    return ConvertTimeout<std::chrono::seconds>(result, value);
   }
 
   if (unit == "m")
   {
-    value = std::chrono::duration_cast<std::chrono::system_clock::duration>(
-        std::chrono::minutes{result});
-    return true;
+    return ConvertTimeout<std::chrono::minutes>(result, value);
   }
 
   if (unit == "h")
   {
-    value =
-        std::chrono::duration_cast<std::chrono::system_clock::duration>(std::chrono::hours{result});
-    return true;
+    return ConvertTimeout<std::chrono::hours>(result, value);
   }
 
   if (unit == "")
@@ -155,9 +168,7 @@ static bool GetTimeoutFromString(const char *input, std::chrono::system_clock::d
     // TODO: The spec says milliseconds, but opentelemetry-cpp implemented
     // seconds by default. Fixing this is a breaking change.
 
-    value = std::chrono::duration_cast<std::chrono::system_clock::duration>(
-        std::chrono::seconds{result});
-    return true;
+    return ConvertTimeout<std::chrono::seconds>(result, value);
   }
 
   // Failed to parse the input string.
